@@ -171,9 +171,11 @@ def run_case(case, R):
         judge(R, f"mean() on {shape}", "mean", lambda: numpoly.mean(p), lambda: frac(m).map(numpy.mean), tags + ["axis=None"], close=True)
         R.sample({"array": str(p).replace("\n", " ")[:160], "axes": [str(a) for a in axes_choices(nd)]})
     elif k == "twins":
-        seq = [sp for sp in space.twin_sequence() if tuple(sp["s"]) == (2,)]
+        seq = [sp for sp in space.twin_sequence() if tuple(sp["s"]) == (2,)] + [sp for _, sp in space.wide_array_specs()]
         for i, sp in enumerate(seq):
             p, m = build_checked(sp), model_of(sp)
+            if len(m.t) > 30:
+                continue
             mo = to_obj(m)
             R.state(("twins", i))
             judge(R, f"sum twin {i}", "sum", lambda: numpoly.sum(p), lambda: m.map(numpy.sum), ["twins"])
